@@ -237,7 +237,7 @@ func OpenSQLiteFaulty(path string, opts ...ebusqlite.Option) (*ebusqlite.SQLiteS
 	restore := ebusqlite.SetDBOpenerForVerification(func(_ string, dsn string) (*sql.DB, error) {
 		return sql.Open("sqlite-fault", id+"|"+dsn)
 	})
-	st, err := ebusqlite.New(path, opts...)
+	st, err := ebusqlite.New(path, append(VariantOptions(), opts...)...)
 	restore()
 	openMu.Unlock()
 	return st, plan, err
